@@ -41,6 +41,8 @@ def answer(z, u_naive):
     loc = u_naive.replace(tzinfo=tz.UTC).astimezone(z)
     d = loc.dst()
     off = loc.utcoffset()
+    if off is None:
+        return ('naive-result', str(loc), None)
     if loc.replace(tzinfo=None) - u_naive != off:
         # the reported offset must also be the one the wall clock was computed with
         return ('wall-clock-inconsistent', str(loc.replace(tzinfo=None)), off.total_seconds())
